@@ -16,6 +16,7 @@ pub fn item_size() -> i64 {
             metrics: false,
             validator: Validator::Always,
             keys: vec![(1, 0)],
+            order: 0,
         };
         use crate::sut::Sut;
         crate::sut::SyncSut::build(&b).unwrap().item_size() as i64
@@ -250,6 +251,7 @@ pub fn config_strategy(p: &Profile) -> BoxedStrategy<Config> {
                 keys,
                 start_ns,
                 tick,
+                order: ((r / 1013) % 5) as u8,
             })
         })
         .boxed()
